@@ -40,6 +40,9 @@ CONFIGS = {
                  # store-rollback failures in the checkpoint-mismatch caller (logs the error and carries on)
                  dict(universe="cpalt", MaxMsgs=3, MaxPeerEv=1, MaxRestarts=1, MaxFaults=1, MaxCrashes=0,
                       FaultKinds=ROLLBACK_FAULTS),
+                 # checkpoint-mismatch rollbacks two and three stored blocks deep, with store-rollback failures
+                 dict(universe="cpdeep", MaxMsgs=3, MaxPeerEv=1, MaxRestarts=1, MaxFaults=1, MaxCrashes=0,
+                      FaultKinds=ROLLBACK_FAULTS),
                  # either peer may connect as a non-candidate (no SFNodeNetwork), with either advertised height
                  dict(universe="u1l", MaxMsgs=3, MaxRestarts=0, MaxFaults=0, MaxCrashes=0)],
     # slice of C04 (run_slice_c04): SyncPeerIsConnected over u1 / over u1 with the full non-candidate dimension
@@ -51,12 +54,22 @@ CONFIGS = {
     "cpalt": [dict(universe="cpalt", MaxMsgs=3, MaxPeerEv=1, MaxRestarts=0, MaxFaults=0, MaxCrashes=0)],
     "crash": [dict(universe="u1", MaxMsgs=2, MaxRestarts=0, MaxFaults=0, MaxCrashes=1)],
     "crash3": [dict(universe="u1", MaxMsgs=3, MaxRestarts=0, MaxFaults=0, MaxCrashes=1)],
+    # quick slice of C19: ONE store rollback call of a headers message fails (j-th call, j = 1..3, either store) inside
+    # rollBackToHeight, in both callers: the checkpoint-mismatch path (logs the error, the client carries on; universe
+    # cpdeep: 2- and 3-deep rollbacks to the previous checkpoint) and the reorganisation path (panics; universe deep:
+    # 2- and 3-deep reorganisations).  Two events per history (plus the peer's connection in cpdeep).
+    "qfaults": [dict(universe="cpdeep", MaxMsgs=2, MaxPeerEv=1, MaxRestarts=0, MaxFaults=1, MaxCrashes=0,
+                     FaultKinds=ROLLBACK_FAULTS),
+                dict(universe="deep", MaxMsgs=2, MaxRestarts=0, MaxFaults=1, MaxCrashes=0, FaultKinds=ROLLBACK_FAULTS)],
     "faults": [dict(universe="u1", MaxMsgs=3, MaxRestarts=0, MaxFaults=1, MaxCrashes=0),
                # the checkpoint-mismatch caller of rollBackToHeight (logs the error and carries on) with stored
                # headers to remove, and rollbacks three blocks deep: store-rollback failures only
                dict(universe="cpalt", MaxMsgs=3, MaxPeerEv=1, MaxRestarts=0, MaxFaults=1, MaxCrashes=0,
                     FaultKinds=ROLLBACK_FAULTS),
-               dict(universe="deep", MaxMsgs=3, MaxRestarts=0, MaxFaults=1, MaxCrashes=0, FaultKinds=ROLLBACK_FAULTS)],
+               dict(universe="deep", MaxMsgs=3, MaxRestarts=0, MaxFaults=1, MaxCrashes=0, FaultKinds=ROLLBACK_FAULTS),
+               # checkpoint-mismatch rollbacks two and three stored blocks deep
+               dict(universe="cpdeep", MaxMsgs=3, MaxPeerEv=1, MaxRestarts=0, MaxFaults=1, MaxCrashes=0,
+                    FaultKinds=ROLLBACK_FAULTS)],
 }
 _COMMON_NOTE = ("Bounded: header universe of 10 (quick) / 13 (thorough) headers incl. forks below/at/above a checkpoint, "
                 "tie / heavier-by-one branches, an invalid header with a valid child; 2 peers; every connected batch of <= 3 "
@@ -87,7 +100,7 @@ MANIFEST = {
                 text="Same exploration and replay with the driver as the only receiver of the block-notification channel: the events "
                      "emitted by every step (with the filter-store tip seen at delivery) and NotificationsSinceHeight(k) for every k "
                      "after every step are recorded; DisconnectEvents / ConnectEvents / EventOrder / BacklogExact are evaluated by TLC. "
-                     "Tiers faults / thorough: the j-th RollbackLastBlock call of a headers message on the block-header or the "
+                     "All tiers (quick: universes cpdeep and deep with two events; faults / thorough: all): the j-th RollbackLastBlock call of a headers message on the block-header or the "
                      "filter-header store fails (j = 1..3): what an interrupted rollBackToHeight removed must have been announced.",
                 note=_COMMON_NOTE + " Filter-header writes are the tip/uncheckpointed form with true filter headers; checkpointed "
                      "batches with partial first intervals are exercised by the CFSync family.", design="4 C19",
@@ -99,7 +112,8 @@ ASSUMPTIONS = [
     "all universe timestamps lie within 24 h of now, so the '24 h' clause of BlockHeadersSynced is always true",
     "handlers are called directly from one goroutine (as blockHandler does); writeCFHeadersMsg is atomic w.r.t. them here",
     "fake peers are unconnected btcd peer objects whose startingHeight/lastBlock/services are set by reflection",
-    "injected store errors (faults / thorough tiers): one per history, returned by the driver's store wrapper without touching "
+    "injected store errors (quick tier of C19: store-rollback failures in universes cpdeep / deep; faults / thorough tiers: "
+    "all universes named there): one per history, returned by the driver's store wrapper without touching "
     "the store; a panic of the reorganisation path on such an error ends the process (only a restart follows)",
     "quick tier: a peer that is not a full node (no SFNodeNetwork) connects only as the first event of a history, to a client "
     "that is current, as peer 2 advertising height 7; the thorough tier (universe u1l) has no such restriction",
@@ -271,6 +285,9 @@ def run(prop_id, tier, seed, replay=None):
             if tier == "quick" and prop_id == "C02":
                 # "not current" (tip older than 24 h): whom the client listens to while it is syncing an old chain
                 cfgs = cfgs + CONFIGS["stale"]
+            if tier == "quick" and prop_id == "C19":
+                # "every block header removed by a rollback is announced": rollbacks interrupted by a store error
+                cfgs = cfgs + CONFIGS["qfaults"]
         runs = [run_one(prop_id, c, rng, os.path.join(sc, "r%d" % i), replay) for i, c in enumerate(cfgs)]
         rc = 0
         known = {}
